@@ -9,4 +9,4 @@ one() {
   for y in $a $b; do [ -d seeded/$id-$y ] && tools/seedcheck.sh seeded/$id-$y $id 2>&1 | tail -1 | cut -c1-330 | tee -a logs/round$r.out; done
 }
 export -f one; export r a b
-printf '%s\n' "$@" | xargs -P 3 -I{} bash -c 'one {}'
+printf '%s\n' "$@" | xargs -P ${ROUND_LANES:-3} -I{} bash -c 'one {}'
